@@ -36,7 +36,7 @@ def universes():
     return res
 
 
-KIND_PROP = {"bread": "C30", "txn": "C24", "upd": "C12", "idx": "C15", "lim": "C33", "read": "C11", "truth3": "C23", "cmp": "C23", "arith": "C23", "order": "C20", "agg": "C21", "err": "C22", "part": "C19"}
+KIND_PROP = {"ext": "C32", "bread": "C30", "txn": "C24", "upd": "C12", "idx": "C15", "lim": "C33", "read": "C11", "truth3": "C23", "cmp": "C23", "arith": "C23", "order": "C20", "agg": "C21", "err": "C22", "part": "C19"}
 
 
 def cypher_sessions(tier, seed, u):
@@ -49,7 +49,38 @@ def cypher_sessions(tier, seed, u):
     ss += cyast.update_sessions(tier, seed * 31 + 8)
     ss += cyast.capi_sessions(tier, seed * 37 + 9)
     ss += cyast.bulk_sessions(tier, seed * 41 + 10)
+    ss += ext_sessions(tier, seed * 43 + 11)
     return ss
+
+
+def ext_sessions(tier, seed):
+    """behaviours of ExtId.tla (statement sizes + the clock reading of every node creation) as CREATE statements"""
+    import random
+    from checks import model_run
+    r = model_run("ExtId", "Gen_ExtId", tier, "extid-gen", workers=1, timeout=900)
+    plans = []
+    for p in r.get("replay") or []:
+        if p and p not in plans and all(len(st["reads"]) == st["n"] for st in p):
+            plans.append(p)
+    if not plans:
+        raise ToolError("Gen_ExtId produced no behaviours")
+    rng = random.Random(seed)
+    rng.shuffle(plans)
+    plans = plans[:40 if tier == "quick" else 1200]
+    sessions = []
+    for k, p in enumerate(plans):
+        cases, cid = [], 0
+        for si, st in enumerate(p):
+            cid += 1
+            clock = [1000000 + t for t in st["reads"]]
+            cases.append({"cid": cid, "kind": "ext", "mode": "write", "dump": True, "clock": clock,
+                          "query": "UNWIND range(1, %d) AS i CREATE (:N {s: %d, i: i})" % (st["n"], si),
+                          "meta": {"n": st["n"], "stmt": si, "clock": clock}})
+        for q in ("#compact", "#reopen"):
+            cid += 1
+            cases.append({"cid": cid, "kind": "extadmin", "mode": "admin", "dump": True, "query": q, "meta": {"n": 0, "clock": []}})
+        sessions.append({"id": "ext/%d" % k, "setup": [], "dump": True, "cases": cases})
+    return sessions
 
 
 def corrupt_for_selftest(lines, dirty_lines=()):
@@ -79,6 +110,8 @@ def corrupt_for_selftest(lines, dirty_lines=()):
                 rows[0][1] = ["int", {"s": 1, "m": [77]}]
             elif k in ("read", "idx", "bread"):
                 rows.append(rows[0])
+            elif k == "ext" and e.get("graph", {}).get("nodes"):
+                e["graph"]["nodes"] = e["graph"]["nodes"][:-1]
             elif k == "upd" and e.get("graph", {}).get("nodes"):
                 e["graph"]["nodes"][0]["labels"] = e["graph"]["nodes"][0]["labels"] + ["Zz"]
             elif k == "lim" and e.get("resl") and any(r["out"] == "rows" and r["canon"] for r in e["resl"]):
@@ -140,7 +173,7 @@ def cypher_family(tier, seed, sessions=None, tag="main"):
             elif k == "err":
                 if e["res"]["out"] == "err":
                     nonempty[k] = nonempty.get(k, 0) + 1
-            elif k == "upd":
+            elif k in ("upd", "ext"):
                 if e["res"]["out"] == "rows":
                     nonempty[k] = nonempty.get(k, 0) + 1
             elif k == "lim":
@@ -416,3 +449,23 @@ def c30(tier, seed, replay):
                    "the reference on its own dump",
                    "seeded node / relationship sets (no relationships, parallel relationships, self loops, names shared by labels and "
                    "types, all scalar kinds, lists, 64-bit integers) loaded by the bulk loader and by transactions")
+
+
+@reg("C32")
+def c32(tier, seed, replay):
+    from checks import model_run
+    m = model_run("ExtId", "MC_ExtId", tier, "extid-mc", workers=2, timeout=600, must_hold=False)
+    rc = cy_prop("C32", tier, seed, replay, ["ext", "extadmin"],
+                 "the clock hook replaces the wall clock read for every created node by the model's reading; node identity is the internal "
+                 "id observed through the storage read API together with the node's creation tag",
+                 "behaviours of ExtId.tla (2 statements of 1-3 nodes, clock ticking / stalling / stepping back between any two reads), "
+                 "each followed by compaction and reopen; every statement must succeed, add its nodes and keep all identities")
+    try:
+        p = os.path.join(vlib.EVIDENCE, "C32.json")
+        ev = json.load(open(p))
+        ev["coverage"]["model"] = {"cfg": "MC_ExtId", "NeverFails": "violated" if m.get("violated") else "holds",
+                                   "states": m.get("states"), "note": "the model of the allocation rule admits a duplicate id as soon as the clock advances by less than the previous statement's node count"}
+        json.dump(ev, open(p, "w"), indent=1, sort_keys=True)
+    except Exception:
+        pass
+    return rc
